@@ -51,7 +51,8 @@ const (
 	zzInvalid  // well-typed but not allowed (wrong version, not a host, bad CIDR, unknown level, 300 for uint8, -1 for mtu)
 	zzMistyped // wrong YAML node kind or unparsable scalar
 	zzAltValid // another allowed value (N9 for N3, debug for info, dns name for address)
-	zzNearMiss // an invalid value that begins or ends like a valid one (N39, gtp5gx, 10.60.0.0/16x)
+	zzNearMiss // an invalid value that begins or ends like a valid one (N39, gtp5gx, 10.60.0.0/16x); for the
+	// node id: an IPv6 literal, which is a well-formed host but has no IPv4 address to resolve to
 	zzNK
 )
 
@@ -67,7 +68,7 @@ func zzScalar(f, k int) (string, bool) {
 		zzFForwarder: "other", zzFIfAddr: `"no host!"`, zzFIfType: "N6", zzFIfMTU: "-1", zzFDnn: `""`, zzFCidr: "10.60.0.0/33", zzFLevel: "verbose"}
 	alt := [zzNF]string{zzFVersion: "1.0.3", zzFPfcpAddr: "upf.free5gc.org", zzFNodeID: "127.0.0.9", zzFTimeout: "1500ms", zzFMaxRetrans: "255",
 		zzFForwarder: "gtp5g", zzFIfAddr: "upf.free5gc.org", zzFIfType: "N9", zzFIfMTU: "9000", zzFDnn: "ims", zzFCidr: "10.61.0.0/24", zzFLevel: "debug"}
-	near := [zzNF]string{zzFVersion: "1.0.3x", zzFPfcpAddr: "127.0.0.8/24", zzFNodeID: "127.0.0.8/24", zzFTimeout: "0s", zzFMaxRetrans: "300",
+	near := [zzNF]string{zzFVersion: "1.0.3x", zzFPfcpAddr: "127.0.0.8/24", zzFNodeID: `"::1"`, zzFTimeout: "0s", zzFMaxRetrans: "300",
 		zzFForwarder: "gtp5gx", zzFIfAddr: "127.0.0.8/24", zzFIfType: "N39", zzFIfMTU: "-1", zzFDnn: `""`, zzFCidr: "10.60.0.0/16x", zzFLevel: "xinfo"}
 	if k == zzNearMiss {
 		return near[f], true
